@@ -102,6 +102,27 @@ let () =
           | o :: _ -> "fail:" ^ o
           | [] -> "fail:no-observation" in
         Mlutil.print_model [m] verdict
+    | "ws", [h; ver; filter; pre; burst; dels] ->
+        (* the monitor through the real HTTP handlers and a real WebSocket client: expected = the listener's
+           entitlement (extracted [expected]) for: pre dispatches, the join, burst dispatches, dels deletes *)
+        let hN = int_of_string h and pre = int_of_string pre and burst = int_of_string burst and dels = int_of_string dels in
+        let msg i = msg_of (Mlutil.hex (if i mod 3 = 0 then "b" else "a")) (Mlutil.hex (string_of_int i)) in
+        let rec range a b = if a >= b then [] else a :: range (a + 1) b in
+        let total = pre + burst in
+        let ops = List.map (fun i -> ODispatch (msg i)) (range 0 pre) @ [OAdd (nat_of_int 0)]
+                  @ List.map (fun i -> ODispatch (msg i)) (range pre total)
+                  @ List.map (fun j -> ODelete (msg (total - 1 - j))) (range 0 (min dels total)) in
+        let k = if ver = "1" then V1 else V2 in
+        let want = expected (nat_of_int hN) k (str_of_field filter) (nat_of_int 0) ops in
+        let want_tok = "T=" ^ String.concat ";" (List.map ev_token want) in
+        let verdict = match outs with
+          | [t; m] ->
+              if m <> "multi=0" then "fail:websocket-message-does-not-carry-exactly-one-json-document(" ^ m ^ ")"
+              else if t <> want_tok then "fail:monitor-stream-differs-from-its-entitlement"
+              else "ok"
+          | o :: _ -> "fail:" ^ o
+          | [] -> "fail:no-observation" in
+        Mlutil.print_model [want_tok; "multi=0"] verdict
     | "fedstop", [_] ->
         (* shutdown in the middle of a burst: Props/C15 emit_never_blocks, deliver_after_stop_never_blocks,
            sync_after_stop_returns, stopped_hub_is_frozen say nothing may block; the model's answer is "ok" *)
